@@ -1073,7 +1073,9 @@ func (e *env) checkHeat(vt *multiterm.VirtualTerm, s *tState) {
 			if lv >= 0 {
 				v := s.val[rn][cols[j]]
 				obs = append(obs, barObs{v, lv, fmt.Sprintf("row %s column %s", run.Q(rn), run.Q(cols[j]))})
-				if cs.Scale == "linear" && mx > mn {
+				// a range narrower than the spacing of float64 at its magnitude (two adjacent counts near 2^57) has no
+				// resolution in the scaled magnitude, which is a float: only monotonicity (below) is asked there
+				if cs.Scale == "linear" && mx > mn && float64(mx) > float64(mn) {
 					u := 0.0
 					switch {
 					case v <= mn:
